@@ -495,7 +495,11 @@ func structEncodeFuncOf(typ reflect.Type, version int16, flexible bool) encodeFu
 
 func arrayEncodeFuncOf(typ reflect.Type, version int16, flexible bool, tag structTag) encodeFunc {
 	elemType := typ.Elem()
-	elemFunc := encodeFuncOf(elemType, version, flexible, tag)
+	// The nullable tag applies to the array, not to its elements: an empty
+	// string in a nullable array of strings is not a null string.
+	elemTag := tag
+	elemTag.Nullable = false
+	elemFunc := encodeFuncOf(elemType, version, flexible, elemTag)
 	switch {
 	case flexible && tag.Nullable:
 		// In flexible messages, all arrays are compact
